@@ -4,6 +4,10 @@
 package main
 
 import (
+	"fmt"
+	"os"
+	clientcmd "github.com/bokysan/socketace/v2/internal/commands/client"
+	"github.com/bokysan/socketace/v2/internal/socketace"
 	"bytes"
 	"io"
 	"net"
@@ -213,5 +217,112 @@ func init() {
 			w = "ok"
 		}
 		return []Tok{TW("connect"), TW(w), TW("secure"), TBool(r.secure), TW("echo"), TBool(r.echo), TW("leak"), TBool(leak), TW("appclear"), TBool(appclear)}
+	})
+}
+
+func init() {
+	opTimeout["c04cmd"] = 40 * time.Second
+	// c04cmd <client insecure (-k) 0/1> <secure flag (-s) 0/1>   the client command as the CLI builds it: flags -> Command.Startup -> listener
+	//   against a real server WITHOUT a certificate (it offers no StartTLS), through a recording relay
+	//  -> startup-err | app echo <0/1> leak <0/1>
+	register("c04cmd", func(a []Tok) []Tok {
+		insecure, secureFlag := a[0].I == 1, a[1].I == 1
+		hits := 0
+		url, stop, err := startServer("plain-socket", serverCfg("none", false), server.Channels{&echoChannel{hits: &hits}})
+		if err != nil {
+			return []Tok{TW("startup-err")}
+		}
+		defer stop()
+		ln, err := net.Listen("tcp", "127.0.0.1:0")
+		if err != nil {
+			panic(err)
+		}
+		relay := &mitmRelay{ln: ln, target: strings.Replace(strings.TrimPrefix(url, "tcp://"), "localhost", "127.0.0.1", 1), script: "none"}
+		go relay.serve()
+		defer ln.Close()
+		port := relay.addr()[strings.LastIndex(relay.addr(), ":")+1:]
+		cmd := clientcmd.NewCommand()
+		cmd.ClientConfig = *clientCfg("none", insecure, true)
+		cmd.Secure = secureFlag
+		if err := cmd.Upstream.UnmarshalFlag("tcp://localhost:" + port); err != nil {
+			return []Tok{TW("startup-err")}
+		}
+		lp := freePort()
+		if err := cmd.ListenList.UnmarshalFlag(fmt.Sprintf("echo~tcp://127.0.0.1:%d", lp)); err != nil {
+			return []Tok{TW("startup-err")}
+		}
+		if err := cmd.Startup(make(chan os.Signal)); err != nil {
+			return []Tok{TW("startup-err")}
+		}
+		defer cmd.Shutdown()
+		marker := []byte("SECRET-MARKER-0123456789abcdef--")
+		echo := false
+		if app, err := net.DialTimeout("tcp", fmt.Sprintf("127.0.0.1:%d", lp), 2*time.Second); err == nil {
+			app.Write(marker)
+			buf := make([]byte, len(marker))
+			app.SetReadDeadline(time.Now().Add(3 * time.Second))
+			_, err := io.ReadFull(app, buf)
+			echo = err == nil && bytes.Equal(buf, marker)
+			app.Close()
+		}
+		time.Sleep(20 * time.Millisecond)
+		relay.mu.Lock()
+		leak := bytes.Contains(relay.c2s.Bytes(), marker) || bytes.Contains(relay.s2c.Bytes(), marker)
+		relay.mu.Unlock()
+		return []Tok{TW("app"), TW("echo"), TBool(echo), TW("leak"), TBool(leak), TW("hits"), TIn(hits)}
+	})
+	opTimeout["c04first"] = 40 * time.Second
+	// c04first <tcp+tls | wss> <n>   the same upstream object connects n times (as after a session loss) to a peer that only records the
+	//   first octet of each connection and hangs up  -> first <octet>*   (22 = a TLS ClientHello)
+	register("c04first", func(a []Tok) []Tok {
+		kind, n := a[0].W, int(a[1].I)
+		socketace.HandshakeTimeout = 1500 * time.Millisecond
+		ln, err := net.Listen("tcp", "127.0.0.1:0")
+		if err != nil {
+			panic(err)
+		}
+		defer ln.Close()
+		firsts := make(chan int, 64)
+		go func() {
+			for {
+				c, err := ln.Accept()
+				if err != nil {
+					return
+				}
+				go func(c net.Conn) {
+					b := make([]byte, 1)
+					c.SetReadDeadline(time.Now().Add(time.Second))
+					if k, _ := c.Read(b); k == 1 {
+						firsts <- int(b[0])
+					} else {
+						firsts <- -1
+					}
+					c.Close()
+				}(c)
+			}
+		}()
+		p := ln.Addr().String()
+		port := p[strings.LastIndex(p, ":")+1:]
+		url := "tcp+tls://localhost:" + port
+		if kind == "wss" {
+			url = "wss://localhost:" + port + "/ws"
+		}
+		u := mkUpstream(url)
+		out := []Tok{TW("first")}
+		for i := 0; i < n; i++ {
+			done := make(chan struct{})
+			go func() { u.Connect(clientCfg("none", true, true), false); close(done) }()
+			select {
+			case f := <-firsts:
+				out = append(out, TIn(f))
+			case <-time.After(4 * time.Second):
+				out = append(out, TI(-2))
+			}
+			select {
+			case <-done:
+			case <-time.After(4 * time.Second):
+			}
+		}
+		return out
 	})
 }
